@@ -885,6 +885,7 @@ func (ix *Index) populateDeleteClaim(ctx context.Context, cl schema.Claim, vr *j
 		return nil
 	}
 	mm.Set(keyDeleted.Key(target, cl.ClaimDateString(), br), "")
+	mm.noteDelete(cl)
 	if meta.CamliType == schema.TypeClaim {
 		return nil
 	}
@@ -911,11 +912,9 @@ func (ix *Index) populateClaim(ctx context.Context, fetcher *missTrackFetcher, b
 	mm.Set(keySignerKeyID.name+":"+vr.CamliSigner.String(), verifiedKeyId)
 
 	if claim.ClaimType() == schema.DeleteClaim {
-		if err := ix.populateDeleteClaim(ctx, claim, vr, mm); err != nil {
-			return err
-		}
-		mm.noteDelete(claim)
-		return nil
+		// populateDeleteClaim notes the deletion for the deletes caches only
+		// when it records it in the index (valid, deletable target).
+		return ix.populateDeleteClaim(ctx, claim, vr, mm)
 	}
 
 	pnbr := claim.ModifiedPermanode()
